@@ -321,11 +321,23 @@ pub fn gen_pair(ch: &mut Choices, id: u64) -> Option<Pair> {
 /// rendering), ids for its named rules, inputs sampled from its rules.
 pub fn gen_lex_pair(ch: &mut Choices, id: u64) -> Pair {
     use crate::genr::lexspec::{RenderOpts, gen_al, render};
-    let al = gen_al(ch, 5);
+    let mut al = gen_al(ch, 5);
     // flags in the %grmtools section (mode 0), through the builder's methods and no section (1),
     // or both (2): a section, and builder methods that set some flags again - documented: "Setting
     // this flag will override the same flag within a %grmtools section"
     let mode = ch.pick(3);
+    // mode 2: the section and the builder disagree about a flag whose effect shows in the lexemes
+    let mut forced: Option<(&'static str, bool)> = None;
+    if mode == 2 {
+        let b = ch.chance(1, 2);
+        if ch.chance(2, 3) {
+            al.flags.case_insensitive = Some(b);
+            forced = Some(("case_insensitive", !b));
+        } else {
+            al.flags.dot_matches_new_line = Some(b);
+            forced = Some(("dot_matches_new_line", !b));
+        }
+    }
     let o = RenderOpts::generate(ch, al.rules.len(), mode != 1);
     let (ltext, _) = render(&al, &o);
     let mut settings = serde_json::Map::new();
@@ -341,7 +353,10 @@ pub fn gen_lex_pair(ch: &mut Choices, id: u64) -> Pair {
         settings.insert("builder_flags".into(), Value::Object(fl));
     } else if mode == 2 {
         let mut bf = serde_json::Map::new();
-        let n = ch.range(1, 3);
+        if let Some((k, v)) = forced {
+            bf.insert(k.to_string(), json!(v));
+        }
+        let n = ch.range(0, 2);
         for _ in 0..n {
             let k = *ch.choose(&["case_insensitive", "dot_matches_new_line", "multi_line", "swap_greed", "octal", "posix_escapes", "allow_wholeline_comments", "case_insensitive"]);
             bf.insert(k.to_string(), json!(ch.chance(1, 2)));
@@ -361,7 +376,24 @@ pub fn gen_lex_pair(ch: &mut Choices, id: u64) -> Pair {
         settings.insert("builder_flags".into(), Value::Object(bf));
         settings.insert("section_and_builder".into(), json!(true));
     }
-    let inputs = crate::props::c09::gen_inputs(ch, &al, 6);
+    let mut inputs = crate::props::c09::gen_inputs(ch, &al, 6);
+    // the same inputs with the case of every letter swapped, and with a newline in the middle:
+    // what case_insensitive and dot_matches_new_line decide
+    let swapped: Vec<String> = inputs
+        .iter()
+        .take(3)
+        .map(|i| i.chars().map(|c| if c.is_ascii_lowercase() { c.to_ascii_uppercase() } else { c.to_ascii_lowercase() }).collect())
+        .collect();
+    let with_nl: Vec<String> = inputs
+        .iter()
+        .take(2)
+        .map(|i| {
+            let cut = (0..=i.len()).filter(|k| i.is_char_boundary(*k)).nth(i.chars().count() / 2).unwrap_or(0);
+            format!("{}\n{}", &i[..cut], &i[cut..])
+        })
+        .collect();
+    inputs.extend(swapped);
+    inputs.extend(with_nl);
     let mut ids = vec![];
     let mut seen = std::collections::BTreeSet::new();
     for (i, r) in al.rules.iter().enumerate() {
